@@ -325,5 +325,7 @@ func TestVerifC17Mempool(t *testing.T) {
 		}
 	}
 	r.Bound = fmt.Sprintf("4 pool states x 2 peer states x (2 undecodable kinds + all tx-size vectors of length <=%d x {distinct, identical})", vr.Pick(3, 4))
-	r.Set("cases_enumerated_total", k)
+	if r.Shard == 0 {
+		r.Set("cases_enumerated_total", k)
+	}
 }
